@@ -31,6 +31,16 @@ def run(ctx):
     ctx.guarded("R18.2", "branch", lambda: branch(ctx))
     ctx.guarded("R18.3", "no-read", lambda: no_read(ctx))
     ctx.guarded("R18.4", "register", lambda: register(ctx))
+    ctx.rule("R18.6", "nothing a client does can make requests() fail before it looks at the kill switch: error exits are environment-only, write() is guarded and an I/O failure closes (C09 R09.1/R09.2/R09.7); the map never holds more than MAX_CONNECTIONS entries, so every descriptor fits in the batch (C10 R10.1)")
+    from .c06 import _Remap
+    from . import c09, c10
+    def shared():
+        r = _Remap(ctx, "R18.6")
+        okw = c09.write_guard(r)
+        c09.exits(r, okw)
+        c09.failure_closes(r, "R18.6")
+        c10.cap(r)
+    ctx.guarded("R18.6", "shared", shared)
 
 
 def batch(ctx):
